@@ -77,6 +77,29 @@ def deviations_for(code):
         yield {'IM': im}
 
 
+D2_VALUES = (0x0000, 0x00FF, 0x3FFF, 0x4000, 0x7FFF, 0xFFFF)
+
+
+def deviations2_for(code):
+    """Second-order deviations (thorough tier): two register pairs jointly, and a pair
+    jointly with F, over a 6-value edge alphabet."""
+    names = ('BC', 'DE', 'HL', 'IX', 'IY', 'SP')
+    for i, p in enumerate(names):
+        for q in names[i + 1:]:
+            for v, w in itertools.product(D2_VALUES, repeat=2):
+                over = dict(pair_over(p, v))
+                over.update(pair_over(q, w))
+                yield over
+        for v in D2_VALUES:
+            for f in F_VALUES:
+                over = dict(pair_over(p, v))
+                over['F'] = f
+                yield over
+    for a in BYTE_VALUES:
+        for f in F_VALUES:
+            yield {'A': a, 'F': f}
+
+
 def is_16bit_arith(code):
     if code[0] == 0xED:
         return code[1] & 0xC7 in (0x42, 0x4A)
@@ -245,7 +268,8 @@ def _shard(shard, nshards, tier, seed):
             for base in (0, 1):
                 answers = ANSWERS if reads_port(code) else (0xBF,)
                 for answer in answers:
-                    for over in deviations_for(code):
+                    devs = deviations_for(code) if quick else itertools.chain(deviations_for(code), deviations2_for(code))
+                    for over in devs:
                         exp, res, diffs = rn.run(code, 0x8000, base, over, (), answer)
                         stats.evaluations += 1
                         stats.transitions += 4
@@ -306,7 +330,7 @@ def run(tier, seed):
              'z80ref.step (all registers, masked F, PC, T, ports, whole memory). states = distinct (op class, length, T, PC, stores, ports) '
              'outcomes + sampled table results; non-trivial = distinct slots/table slices'.format(3 if tier == 'quick' else 5),
         exhaustive=True,
-        bound='tables complete in both tiers; slot sweep with {} operand fillings'.format(3 if tier == 'quick' else 5),
+        bound='tables complete in both tiers; slot sweep with {} operand fillings, deviations d <= {}'.format(3 if tier == 'quick' else 5, 1 if tier == 'quick' else 2),
         assumptions=['oracle mc/refs/z80ref.py; undocumented bits masked: F3/F5 after SCF/CCF (Q-dependent), after BIT n,(HL) (MEMPTR), and '
                      'while a block instruction repeats; H/PV/C/F3/F5 while INIR/OTIR-type instructions repeat',
                      'contended simulators started outside the contended part of the frame (C19 covers contention)',
